@@ -408,7 +408,11 @@ class ComponentLevel3( ComponentLevel2 ):
 
         obj = obj.get_parent_object()
         while obj.is_signal():
-          writer_prop[ obj ] = False
+          # Don't demote an ancestor that is itself written: the result
+          # must not depend on the order in which the set of written
+          # objects is traversed.
+          if not writer_prop.get( obj, False ):
+            writer_prop[ obj ] = False
           obj = obj.get_parent_object()
 
     # Find the host object of every net signal
